@@ -191,6 +191,8 @@ watchers:
 	rng.Shuffle(len(ops)-2, func(a, b int) { ops[a], ops[b] = ops[b], ops[a] })
 	// a watched file is renamed away (rename is not subscribed: no run), the watcher must keep serving
 	ops = append(ops, op{"rename", "watched2"}, op{"write", "watched"}, op{"chmod", "watched"})
+	// ... and when the file comes back to its observed path, events on it are served again
+	ops = append(ops, op{"renameback", "watched2"}, op{"write", "watched2"})
 	var want []string
 	var replay []string
 	for _, o := range ops {
@@ -204,9 +206,11 @@ watchers:
 			os.Chmod(p, 0600+os.FileMode(len(replay)%2)*0040)
 		case "rename":
 			os.Rename(p, p+".renamed")
+		case "renameback":
+			os.Rename(p+".renamed", p)
 		}
 		replay = append(replay, o.kind+":"+o.file)
-		if (o.file == "watched" || o.file == "watched2") && o.kind != "rename" {
+		if (o.file == "watched" || o.file == "watched2") && o.kind != "rename" && o.kind != "renameback" {
 			want = append(want, fmt.Sprintf("RAN %s %s", o.kind, p))
 		}
 		// the serve loop polls once a second and handles one event per iteration
